@@ -41,7 +41,7 @@ def only_write_bytes_writes(sources, twin):
 
 
 framescan('C02/only-_write_bytes_to_device-writes-to-the-transport', ['C02', 'C15'], only_write_bytes_writes,
-          'bulk_write only in _write_bytes_to_device <- _send <- {send, connect}')
+          'bulk_write only in _write_bytes_to_device <- _send <- {send, connect}', side_condition=True)
 
 
 def available_written_only_by(sources, twin):
@@ -57,12 +57,12 @@ def available_written_only_by(sources, twin):
             continue
         c = CONTRACTS.get('AdbDevice.' + name)
         if c is None or 'C13' not in c.props:
-            problems.append('public method %s has no C13 contract' % name)
+            problems.append('UNDECIDED: public method %s has no C13 contract (added after the contracts were written)' % name)
     return problems
 
 
 framescan('C13/_available-written-only-in-init-close-connect+every-public-method-under-contract', ['C13'], available_written_only_by,
-          '_available is written only by __init__, close, connect; no public method without a guard contract')
+          '_available is written only by __init__, close, connect; no public method without a guard contract', side_condition=True)
 
 
 # (a former scan "locks only via with" was dropped: acquire()/release() are modelled by the engine, so a manual acquire is decided by the
@@ -80,7 +80,7 @@ def local_id_touched_only_in_open(sources, twin):
 
 
 framescan('C14/_local_id-touched-only-by-__init__-and-_open', ['C14'], local_id_touched_only_in_open,
-          'the stream id counter is read and written only in __init__ and _open (where the engine checks the lock is held)')
+          'the stream id counter is read and written only in __init__ and _open (where the engine checks the lock is held)', side_condition=True)
 
 def exception_payload_is_kept_verbatim(classes):
     """Side condition of A-MSG (the engine records which exception class is raised and its designated payload, and does
@@ -139,7 +139,8 @@ def exception_payload_is_kept_verbatim(classes):
 for _p, _cl in (('C10', ('AdbCommandFailureException', 'PushFailedError', 'InvalidResponseError')), ('C13', ('AdbConnectionError', 'DevicePathInvalidError')),
                  ('C05', ('DeviceAuthError', 'InvalidResponseError')), ('C03', ('InvalidChecksumError', 'InvalidCommandError')), ('C11', ('AdbTimeoutError',))):
     framescan('A-MSG/%s-keep-their-payload-verbatim' % '+'.join(_cl), [_p], exception_payload_is_kept_verbatim(_cl),
-              'side condition of A-MSG: no constructor / __str__ override on an exception class this property names when it is raised with a computed payload')
+              'side condition of A-MSG: no constructor / __str__ override on an exception class this property names when it is raised with a computed payload',
+              side_condition=True)
 
 # ---------------------------------------------------------------------------------------------------------------------
 # C14: the id sequence
